@@ -66,13 +66,28 @@ def ledger_rule_cases(conn):
     return out
 
 
+SPANS = {}      # statement text -> text of the offending node, where the error must point
+
+
 def rule_cases():
     """[(rule, text, params)] - every one must be rejected."""
     out = []
-    add = lambda rule, text, params=None: out.append((rule, text, params))  # noqa: E731
-    add('unknown-table', 'SELECT i FROM #nope')
+    SPANS.clear()
+
+    def add(rule, text, params=None, span=None):
+        out.append((rule, text, params))
+        if span is not None:
+            SPANS[text] = span
+    add('unknown-table', 'SELECT i FROM #nope', span='#nope')
     add('unknown-table', 'SELECT 1 FROM #M')
     add('unknown-table', 'SELECT i FROM #m WHERE i IN (SELECT w FROM #zz)')
+    add('unknown-column', 'SELECT i,\n       nope + 1 FROM #m', span='nope')
+    add('unknown-column', 'SELECT i FROM #m WHERE i > 0 AND length(nope) = 1', span='nope')
+    add('unknown-function-or-arity', 'SELECT i, nofunc(i, 2) AS x FROM #m', span='nofunc(i, 2)')
+    add('attribute-of-unstructured', 'SELECT s, i.x FROM #m', span='i.x')
+    add('not-subscriptable', "SELECT s['k'] AS v FROM #m", span="s['k']")
+    add('coalesce', 'SELECT i, coalesce(i, d) FROM #m', span='coalesce(i, d)')
+    add('invalid-date', 'SELECT i FROM #m WHERE t = 2021-02-29', span='2021-02-29')
     for clause in ('SELECT nope FROM #m', 'SELECT i FROM #m WHERE nope = 1', 'SELECT i, count(*) FROM #m GROUP BY nope',
                    'SELECT i FROM #m ORDER BY nope', 'SELECT i FROM #m ORDER BY nope + 1', 'SELECT i FROM nope = 1',
                    'SELECT count(*) FROM #m GROUP BY i HAVING nope > 0', 'SELECT w FROM #m',
@@ -98,14 +113,15 @@ def rule_cases():
             l, r = bql.implicit(ta, tb)
             well = bql.arith_type(op, l, r) is not None if op in bql.ARITH else bql.cmp_ok(op, l, r)
             if not well:
-                add(f'ill-typed:{op}', f'SELECT {a} {sym} {b} FROM #m')
+                add(f'ill-typed:{op}', f'SELECT {a} {sym} {b} FROM #m', span=f'{a} {sym} {b}')
+                add(f'ill-typed:{op}', f'SELECT i,\n  rid FROM #m\n WHERE b AND  {a} {sym} {b}', span=f'{a} {sym} {b}')
     for a, ta in TYPES.items():
         if ta not in bql.NUM and a not in ('j', 'b'):      # bool is accepted where int is
-            add('ill-typed:neg', f'SELECT -{a} FROM #m')
+            add('ill-typed:neg', f'SELECT -{a} FROM #m', span=f'-{a}')
     for a, b, c in itertools.product('idstb', repeat=3):
         ts = [TYPES[a], TYPES[b], TYPES[c]]
         if not (all(t in bql.NUM for t in ts) or (ts[0] in ('date', 'str') and ts.count(ts[0]) == 3)):
-            add('ill-typed:between', f'SELECT {a} BETWEEN {b} AND {c} FROM #m')
+            add('ill-typed:between', f'SELECT {a} BETWEEN {b} AND {c} FROM #m', span=f'{a} BETWEEN {b} AND {c}')
     # ill-typed argument tuples of scalar functions (only where subclassing cannot match either)
     strict = {'int': 'i', 'decimal': 'd', 'str': 's', 'date': 't', 'set': 'st', 'dict': 'di'}
     for name, sigs in bql.FUNCS.items():
@@ -119,7 +135,7 @@ def rule_cases():
                     accepted = True          # length() also measures sets and lists
                 if not accepted:
                     args = ', '.join(strict[c] for c in combo)
-                    add(f'ill-typed:{name}', f'SELECT {name}({args}) FROM #m')
+                    add(f'ill-typed:{name}', f'SELECT {name}({args}) FROM #m', span=f'{name}({args})')
     for fn, bad in (('sum', 'st'), ('sum', ['st', 'di'])):
         for a in bad:
             add('ill-typed:sum', f'SELECT sum({a}) FROM #m')
@@ -291,6 +307,11 @@ def prop_rules(sh, case):
         else:
             for p in location_problems(exc, text):
                 fails.append((f'rules:{rule}:location', f'{shown!r}: {p}'))
+            if text in SPANS:
+                info = getattr(exc, 'parseinfo', None)
+                where = None if info is None else info.tokenizer.text[info.pos:info.endpos].strip()
+                if where != SPANS[text]:
+                    fails.append((f'rules:{rule.split(":")[0]}:location-points-elsewhere', f'{shown!r}: error points at {where!r}, offending text is {SPANS[text]!r}'))
         sh.record(f'{rule}|{text}', True, {'rule': rule, 'text': shown} if len(text) < 120 else None)
         sh.count(f'rule:{rule.split(":")[0]}')
     return fails
